@@ -93,7 +93,11 @@ fn write_tree(dir: &str, files: &BTreeMap<String, String>) -> std::io::Result<()
 fn run_process(pc: &ProcCfg, files: &BTreeMap<String, String>, hash_seed: Option<u64>, fake_time: Option<i64>, aslr_off: bool, spelling: u8) -> Result<String, String> {
     let dir = format!("{}/c06", pc.scratch);
     write_tree(&dir, files).map_err(|e| format!("harness: {e}"))?;
-    std::fs::write(format!("{dir}/oal.toml"), "[api]\nmain = \"main.oal\"\ntarget = \"out.yaml\"\n").map_err(|e| format!("harness: {e}"))?;
+    // every spelling compiles with the same base description (tags, a security scheme, a
+    // response component, paths and schemas of its own that must be replaced)
+    let base = "openapi: 3.0.3\ninfo:\n  title: Base\n  version: 1.2.3\ntags:\n- name: zeta\n- name: alpha\nservers:\n- url: https://b.example/\n- url: https://a.example/\npaths:\n  /old:\n    get:\n      responses: {}\ncomponents:\n  schemas:\n    Old:\n      type: string\n  securitySchemes:\n    zkey:\n      type: http\n      scheme: bearer\n    akey:\n      type: apiKey\n      name: k\n      in: header\n";
+    std::fs::write(format!("{dir}/base.yaml"), base).map_err(|e| format!("harness: {e}"))?;
+    std::fs::write(format!("{dir}/oal.toml"), "[api]\nmain = \"main.oal\"\ntarget = \"out.yaml\"\nbase = \"base.yaml\"\n").map_err(|e| format!("harness: {e}"))?;
     let _ = std::fs::create_dir_all(format!("{dir}/sub"));
     let _ = std::os::unix::fs::symlink(".", format!("{dir}/link"));
     let mut cmd = if aslr_off {
@@ -108,7 +112,7 @@ fn run_process(pc: &ProcCfg, files: &BTreeMap<String, String>, hash_seed: Option
         2 => cmd.args(["-c", "sub/../oal.toml"]),
         3 => cmd.args(["-c", &format!("{dir}/oal.toml")]),
         4 => cmd.args(["-c", "link/oal.toml"]),
-        _ => cmd.args(["-m", "main.oal", "-t", "out.yaml"]),
+        _ => cmd.args(["-m", "main.oal", "-t", "out.yaml", "-b", "base.yaml"]),
     };
     cmd.current_dir(&dir);
     if hash_seed.is_some() || fake_time.is_some() {
